@@ -4,6 +4,9 @@
     m0()  = self.v * a + b                      (observer)
     m1(k) : self.v = self.v + k * c             (mutator through self)
     m2()  : static s = s + d; return s          (impl-block static, one per (interface, type) pair)
+    m3(k) : self.v = self.v + k * c; return self.v * a + b    (mutator that returns a value)
+  A call through a pointer to an interface variable (`I* q = &p; q->m()`) denotes the same receiver as the call
+  through the variable itself, so both forms are the same operation here.
   Interface variables hold a value (dynamic type, field).  Core Lean only.
 -/
 namespace CbModel.Iface
@@ -48,6 +51,7 @@ inductive Op where
   | rd (c : Nat)                     -- println(c.v)
   | wr (c : Nat) (k : Int)           -- c.v = k
   | viaParam (p : Nat)               -- f(p) where f(I x) { x.m1(1); println(x.m0()); }  (by value)
+  | mutRet (p : Nat) (k : Int)       -- println(p.m3(k))   /   println(q->m3(k)) with I* q = &p
   deriving Repr, Inhabited
 
 /-- `ifaceOf p` : the declared interface of interface variable p -/
@@ -90,6 +94,15 @@ def step (t : Impls) (ifaceOf : Nat → Nat) (s : St) : Op → Option St
     match s.conc[c]? with
     | some (j, _) => some { s with conc := s.conc.set c (j, k) }
     | none => none
+  | .mutRet p k =>
+    match s.ifv[p]? with
+    | some (some (j, v)) =>
+      match t.get (ifaceOf p) j with
+      | some m =>
+        let nv := v + k * m.c
+        some { s with ifv := s.ifv.set p (some (j, nv)), out := s.out ++ [nv * m.a + m.b] }
+      | none => none
+    | _ => none
   | .viaParam p =>
     match s.ifv[p]? with
     | some (some (j, v)) =>
